@@ -439,3 +439,15 @@ def _reach_no_backedge(cfg, a, b):
     """b reachable from a along statement order only (source line increasing) - a cheap stand-in for 'within one loop iteration'"""
     sa, sb = cfg.stmt_of[a], cfg.stmt_of[b]
     return sb.lineno > sa.lineno and cfg.reachable(a, b)
+
+
+@rule('C06', 'C06.R13', 'Hot Rod throws the last sweep away COMPLETELY: every entry of u, the initial value u[0] included, goes back to the stored previous iterate (restoring u[1:] only leaves a step with the u0 it received during the discarded sweep, while its predecessor\'s end value belongs to the sweep before: the accepted steps no longer chain)', floor=1)
+def r13(ctx, R):
+    repo = ctx.repo
+    rel = 'pySDC/implementations/convergence_controller_classes/hotrod.py'
+    fn = repo.func(rel, 'HotRod.post_iteration_processing')
+    w = f'{rel}:HotRod.post_iteration_processing'
+    R.fn(w)
+    st = [s for s in walk_no_nested(fn) if isinstance(s, ast.Assign) and 'uold' in ast.unparse(s.value)]
+    ok = len(st) == 1 and ast.unparse(st[0].targets[0]) == 'L.u[:]' and ast.unparse(st[0].value) == 'L.uold[:]'
+    R.check(ok, 'HotRod.post_iteration_processing :: L.u[:] = L.uold[:] (whole list, u[0] included)', w, 'L.u[:] = L.uold[:]', [ast.unparse(s) for s in st])
